@@ -335,6 +335,36 @@ def o_inspect(rec: Recorder, case, soft=False):
     if insp(out) != info:
         rec.fail(f"C07/inspect-reparse/{kind}", f"libpass {kind}: re-inspecting the rendered record gives a different record", "inspect", case, None, None, soft=soft)
         return
+    # a parse result is the caller's own: editing the returned record (to render a derived string) must not change what the
+    # next parse of the SAME text reports
+    import copy
+    import dataclasses
+
+    if dataclasses.is_dataclass(info):
+        snap, edited = copy.deepcopy(info), 0
+        for f in dataclasses.fields(info):
+            v = getattr(info, f.name)
+            try:
+                if isinstance(v, bool) or v is None:
+                    continue
+                if isinstance(v, int):
+                    setattr(info, f.name, v + 1)
+                elif isinstance(v, str) and v:
+                    setattr(info, f.name, v[:-1] + ("A" if v[-1] != "A" else "B"))
+                elif isinstance(v, bytes) and v:
+                    setattr(info, f.name, v[:-1] + bytes([v[-1] ^ 1]))
+                else:
+                    continue
+                edited += 1
+            except (dataclasses.FrozenInstanceError, AttributeError, TypeError):
+                pass
+        if edited:
+            rec.count("inspect:record-edited-then-reparsed")
+            again = insp(text)
+            if again is None or again != snap or again.as_str() != text:
+                rec.fail(f"C07/inspect-shares-record/{kind}", f"libpass {kind}: after the caller edits a returned record, parsing the same text again no longer reports the text's own settings", "inspect", case, repr(again), repr(snap), soft=soft)
+                return
+        info = snap
     if kind == "bcrypt":
         # the record's settings are the ones the hash was made with: its salt/config string is the first 29 characters ($2b$NN$ + 22)
         if info.bcrypt_salt != text[:29].encode("ascii") or (info.prefix, "%02d" % info.rounds, info.salt, info.hash) != (text[1:3], text[4:6], text[7:29], text[29:]):
@@ -440,6 +470,10 @@ def t_small_fields(rec, seed, tier):
     n = 0
     for ln in range(1, 6):
         o_handler(rec, {"name": "scrypt", "settings": {"ident": "$7$", "rounds": ln, "block_size": 1 + ln % 3, "parallelism": 1, "salt": b"abc"}, "ctx": {}, "secret": "pw", "ref_made": False}, soft=True)
+        n += 1
+    # $7$ packs block size and parallelism into five hash64 digits each: values that need the second and third digit
+    for r, par in ((63, 1), (64, 1), (65, 2), (1, 64), (2, 127), (64, 64), (200, 3), (3, 4097), (4096, 1)):
+        o_handler(rec, {"name": "scrypt", "settings": {"ident": "$7$", "rounds": 1, "block_size": r, "parallelism": par, "salt": b"abc"}, "ctx": {}, "secret": "pw", "ref_made": False}, soft=True)
         n += 1
     for last in ".Oeu":
         for ident in ("2a", "2b", "2y", "2"):
